@@ -1221,9 +1221,16 @@ func genSpotOrderCreate(g *G) *Op {
 	if !price.IsPositive() {
 		price = sdkmath.LegacyOneDec()
 	}
+	// the market price of the pair is the ratio of the two assets' prices (the base currency is not always at 1.0)
+	if q := g.priceOf(ptypes.BaseCurrency); q.IsPositive() && g.priceOf(other).IsPositive() {
+		price = price.Quo(q)
+	}
 	ot := []tstypes.SpotOrderType{tstypes.SpotOrderType_STOPLOSS, tstypes.SpotOrderType_LIMITSELL, tstypes.SpotOrderType_LIMITBUY, tstypes.SpotOrderType_MARKETBUY}[g.Pick("sot", 4)]
 	rate := price.MulInt64(int64(g.Int("ratepct", 50, 150))).QuoInt64(100)
-	switch g.Int("near", 0, 3) {
+	switch g.Int("near", 0, 4) {
+	case 4:
+		// at the market to the last digit: the market itself and one or two units of the 18th decimal either side
+		rate = price.Add(sdkmath.LegacyNewDecWithPrec(int64(g.Int("rateulp", -2, 2)), 18))
 	case 0:
 		rate = price.MulInt64(int64(g.Int("ratenear", 99, 101))).QuoInt64(100)
 	case 1:
